@@ -45,7 +45,11 @@ StrictOpenError == \/ (pc = <<"failed">> /\ Skip)
 (* before it closes: PExit of the program layer, seen as two events                                              *)
 StrictCloseCommit(d) == /\ pc = <<"idle">> /\ l < Len(Ev) /\ Ev[l + 1].a \in {"Exit", "Commit"}
                         /\ DbCommit(d) /\ UNCHANGED <<pc, calls, recs, legacy, pend, batches, faults>>
-StrictFail(d, rb) == (\E i \in Recs : DbOf(i) = d /\ PCommitFail(i, rb)) \/ PLeaveCommitFail(d, rb)
+StrictFail(d, rb) == \/ \E i \in Recs : DbOf(i) = d /\ PCommitFail(i, rb)
+                     \/ PLeaveCommitFail(d, rb)
+                     \/ (* the commit of Database.close() is refused: close() raises, the process ends as by a kill *)
+                        /\ pc = <<"idle">> /\ inTxn[d] /\ l < Len(Ev) /\ Ev[l + 1].a = "Crash"
+                        /\ DbFail(d, rb) /\ UNCHANGED <<pc, calls, recs, legacy, pend, batches, faults>>
 
 Event(e) ==
   \/ /\ e.a = "Start"       /\ Step(DbStart, PStart)
